@@ -210,6 +210,9 @@ func (f *File) LitText(l *Lit) string {
 		}
 		return "false"
 	case LString:
+		if l.Field != nil {
+			return quoteIDL(l.Field.Name)
+		}
 		return quoteIDL(l.S)
 	case LList:
 		parts := make([]string, len(l.Items))
